@@ -75,6 +75,9 @@ _coerce_scheme_options = dict(
     checksum_size=int,
     hash_len=int,
     salt_len=int,
+    # scram: a list of names, written to INI as a comma separated string
+    algs=splitcomma,
+    default_algs=splitcomma,
     # alternate names accepted by HasRounds.using() / HasSalt.using()
     min_desired_rounds=int,
     max_desired_rounds=int,
